@@ -26,8 +26,8 @@ import numpy as np
 from .common import fhex, ints
 
 PROP_FILE = "Properties/C11.v"
-GEN = ["GenSubset", "GenC11"]
-RUN_FILES = ["Model/C11_run.v"]
+GEN = ["GenSubset", "GenC11", "GenC19", "GenC11imp"]
+RUN_FILES = ["Model/C11_run.v", "Model/C11_imp_run.v"]
 
 NONOVERLAP = ("IncompatibleAreas", "InvalidArea")
 GEOS_H = 35785831.0
@@ -685,7 +685,7 @@ def bl(l):
 
 STAGE = {"Area outside of domain.": 1, "Areas not overlapping.": 2, "No slice on area.": 3, "Area not within finite bounds.": 4}
 HDR = ("From Coq Require Import ZArith List Bool PrimFloat.\n"
-       "From PR Require Import Base.Num Base.F64 Base.ListX Base.Slice Model.Grid Model.Crop Model.C11_run.\n"
+       "From PR Require Import Base.Num Base.F64 Base.ListX Base.Slice Model.Grid Model.Crop Model.C11_run Model.C11_imp_run.\n"
        "Import ListNotations.\nOpen Scope Z_scope.\n")
 
 
@@ -925,7 +925,9 @@ def run(ctx):
     # ---- correspondence: model (binary64 / Z) vs implementation, exact
     groups = [("crop", "chk_crop", L_crop), ("arr", "chk_arr", L_arr), ("create", "chk_create", L_create),
               ("starts", "chk_starts", L_starts), ("gas", "chk_gas", L_gas), ("swath", "chk_swath", L_swath),
-              ("ensure", "chk_ensure", L_ens), ("orient", "chk_orient", L_ori), ("gas_divisible", "chk_div", L_div)]
+              ("ensure", "chk_ensure", L_ens), ("orient", "chk_orient", L_ori), ("gas_divisible", "chk_div", L_div),
+              # the definitions regenerated from the SwathSlicer loops (py2coq_imp), run on the same swath cases
+              ("imp_swath", "chk_imp_swath", L_swath)]
     texts = []
     for name, chk, L in groups:
         for sh in range(0, max(len(L), 1), 400):
